@@ -93,6 +93,7 @@ def check(ctx):
             ctx.call_method(I, st, o, "_fit", K, Yhat, W)
             site = ctx.site(P.method(cls, "_fit"))
             cfg = f"{solver} {name}"
+            pc._args_untouched(ctx, "NF-LINEAR", I, (K, Yhat, W), f"_fit [{cfg}]", site, cfg)
             kers = [b for k, b in rec if k == "pcovr_kernel"]
             decs = [m for k, m in rec if k in ("full", "truncated")]
             ok = len(kers) == 1 and kers[0]["mixing"].term == mix.term and kers[0]["X"].term == K.term and kers[0]["Y"].term == Yhat.term and kers[0].get("kernel") is not None and kers[0]["kernel"].has_const and kers[0]["kernel"].const == "precomputed"
@@ -163,7 +164,7 @@ def check(ctx):
                     ctx.ob("R-REGRESSOR", f"[{cfg}] Yhat = K @ W with W = regressor_.dual_coef_", a[1].term.op == "matmul" and N.nf(a[1].term.args[0]) == N.nf(Kt) and tq.has_attr(a[2].term, "dual_coef_") and a[1].term.args[1] == a[2].term, f"Yhat = {repr(a[1].term)[:200]}; W = {repr(a[2].term)[:120]}", site, cfg)
                     ctx.shape_is("Shape", f"[{cfg}] W is (n_samples, n_targets)", a[2], ("N", "P"), site, cfg)
                 else:
-                    ctx.ob("R-REGRESSOR", f"[{cfg}] precomputed: Yhat is a copy of the supplied targets", a[1].term == Y.term and not any(o_[0] == "in" for o_ in a[1].orig), f"Yhat = {a[1].term!r}", site, cfg)
+                    ctx.ob("R-REGRESSOR", f"[{cfg}] precomputed: Yhat is the supplied targets (a copy, or a view that _fit only reads - see the argument obligation of _fit)", N.nf(a[1].term) == N.nf(Y.term), f"Yhat = {a[1].term!r}", site, cfg)
                     want = fit_kw["W"].term if reg.endswith("W") else T("lstsq", Kt, Y.term, ("rcond", tol.term))
                     ctx.ob("R-REGRESSOR", f"[{cfg}] W = {'the caller W' if reg.endswith('W') else 'lstsq(K, Yhat, tol)'}", N.nf(a[2].term) == N.nf(want), f"W = {repr(a[2].term)[:200]}", site, cfg)
             ptt, pkt = T("sym", "ptt"), T("sym", "pkt")
